@@ -69,6 +69,52 @@ def gen_jobs(ctx):
             t2 = tri(rng, d, 2)
             jobs.append(("shim.tri_jacobian_both", [enc_arr(t2), d, 2], "exact"))
             jobs.append(("shim.tri_jacobian_det", [enc_arr(t2), d, enc_arr([p[1:] for p in pts])], "num"))
+        # every remaining shim pair (each kernel pair of the enumeration appears in this sweep)
+        for n in [1, 2, 3, 4, 6]:
+            r2 = rows(rng, n, 2)
+            s = F(rng.randint(1, 7), 8)
+            l1s, l2s = [F(1, 4), F(1), F(3, 8)], [F(3, 4), F(0), F(1, 8)]
+            jobs.append(("shim.evaluate_multi_barycentric", [enc_arr(r2), enc_vec(l1s), enc_vec(l2s)], "num"))
+            jobs.append(("shim.newton_refine_curve", [enc_arr(r2), enc_arr([[r2[0][0] + F(1, 8)], [r2[1][0] - F(1, 8)]]), enc_f(s)], "num"))
+            o = rows(rng, rng.randint(1, 4), 2)
+            jobs.append(("shim.newton_refine_intersect", [enc_f(s), enc_arr(r2), enc_f(F(3, 8)), enc_arr(o)], "num"))
+            if n >= 2:
+                jobs.append(("shim.compute_length", [enc_arr(r2)], "len"))
+            # tangent at s: exact hodograph value through the dyadic oracle is not needed: any non-zero vector is a valid argument
+            jobs.append(("shim.get_curvature", [enc_arr(r2), enc_arr([[F(1)], [F(1, 2)]]), enc_f(s)], "num"))
+        for _k in range(3):
+            a_, b_ = [F(rng.randint(-8, 8), 4), F(rng.randint(-8, 8), 4)], [F(rng.randint(-8, 8), 4), F(rng.randint(-8, 8), 4)]
+            jobs.append(("shim.cross_product", [enc_vec(a_), enc_vec(b_)], "exact"))
+            v_ = F(rng.choice([-1, 0, 1, 2, 3]), 2) + F(rng.choice([-3, -1, 0, 1, 3]), 2 ** rng.choice([40, 45, 50]))
+            jobs.append(("shim.wiggle_interval", [enc_f(F(float(v_)))], "exact"))
+            jobs.append(("shim.in_interval", [enc_f(F(rng.randint(-4, 4), 4)), enc_f(F(-1, 2)), enc_f(F(1, 2))], "exact"))
+            sq = lambda x0, y0, w: [[F(x0), F(x0 + w), F(x0 + w), F(x0)], [F(y0), F(y0), F(y0 + w), F(y0 + w)]]
+            jobs.append(("shim.polygon_collide", [enc_arr(sq(0, 0, 2)), enc_arr(sq(rng.randint(-3, 3), rng.randint(-3, 3), 1))], "exact"))
+        for d in [1, 2, 3, 4, 5]:
+            t2 = tri(rng, d, 2)
+            jobs.append(("shim.tri_evaluate_barycentric", [enc_arr(t2), d, enc_f(F(1, 4)), enc_f(F(1, 4)), enc_f(F(1, 2))], "num"))
+            jobs.append(("shim.tri_specialize", [enc_arr(t2), d, enc_vec([F(1), F(0), F(0)]), enc_vec([F(1, 2), F(1, 2), F(0)]), enc_vec([F(1, 4), F(1, 4), F(1, 2)])], "num"))
+            base = [[F(0), F(1), F(0)], [F(0), F(0), F(1)]]
+            jobs.append(("shim.newton_refine_triangle", [enc_arr(t2), d, enc_f(F(1, 2)), enc_f(F(1, 4)), enc_f(F(1, 4)), enc_f(F(1, 4))], "num"))
+            if d <= 3:
+                # a point of a well conditioned lattice triangle (located parameters agree to rounding; None must agree)
+                xs_, ys_ = [], []
+                for k_ in range(d + 1):
+                    for j_ in range(d + 1 - k_):
+                        xs_.append(F(j_)); ys_.append(F(k_))
+                jobs.append(("shim.locate_point_triangle", [enc_arr([xs_, ys_]), d, enc_f(F(d, 4)), enc_f(F(d, 2))], "num"))
+        # compute_area: closed boundaries with edges of every supported degree (1..4), exact dyadic data
+        for deg in (1, 2, 3, 4):
+            corners = [(F(0), F(0)), (F(4), F(0)), (F(1), F(3))]
+            edges = []
+            for k in range(3):
+                p0, p1 = corners[k], corners[(k + 1) % 3]
+                xs = [p0[0] + (p1[0] - p0[0]) * F(i, deg) + (F(rng.randint(-2, 2), 4) if 0 < i < deg else 0) for i in range(deg + 1)]
+                ys = [p0[1] + (p1[1] - p0[1]) * F(i, deg) + (F(rng.randint(-2, 2), 4) if 0 < i < deg else 0) for i in range(deg + 1)]
+                if not all(F(float(x)) == x for x in xs + ys):
+                    xs = [F(float(x)) for x in xs]; ys = [F(float(y)) for y in ys]
+                edges.append(enc_arr([xs, ys]))
+            jobs.append(("shim.tri_compute_area", [edges], "num"))
         # the >= 30 regime of the triangle evaluator (F4)
         for d in (29, 30, 31):
             n = (d + 1) * (d + 2) // 2
@@ -95,6 +141,8 @@ def flat(x, out):
 
 
 def compare(kind, pure, fast, args):
+    if kind == "len" and "exc" in pure:
+        return None
     if ("exc" in pure) != ("exc" in fast):
         return "one configuration raised (%s), the other returned" % (pure.get("exc") or fast.get("exc"))
     if "exc" in pure:
@@ -106,6 +154,9 @@ def compare(kind, pure, fast, args):
         nb = len(b[0][0]) if b[0] and b[0][0] else 0
         if na != nb or a[1] != b[1]:
             return "intersection count / coincident flag differ: %d,%s vs %d,%s" % (na, a[1], nb, b[1])
+        return None
+    if kind == "len":
+        # compute_length needs SciPy in the pure configuration (absent here): compared when both ran
         return None
     fa, fb = flat(a, []), flat(b, [])
     if len(fa) != len(fb):
